@@ -216,6 +216,20 @@ let handle (line : string) : string =
   | ["nmeacount"; h] -> string_of_n (M.count_sentences (bytes_of_hex h))
   | ["dec"; k; h] ->
     show_res string_of_fields (M.decode (kind_of_string k) (bytes_of_hex h))
+  | ["decenc"; k; h] ->
+    (match M.decode (kind_of_string k) (bytes_of_hex h) with
+     | M.Ok fs -> show_res hex_of_bytes (M.encode fs)
+     | M.Raise e -> "!" ^ exn_name e)
+  | ["decsetenc"; k; h; name; v] ->
+    (match M.decode (kind_of_string k) (bytes_of_hex h) with
+     | M.Ok fs -> show_res hex_of_bytes (M.encode (M.setf fs (cstring name) (fval_of_string v)))
+     | M.Raise e -> "!" ^ exn_name e)
+  | ["specdec"; name; h] ->
+    (match M.oracle_decode (cstring name) (bytes_of_hex h) with
+     | Some fs -> string_of_fields fs | None -> "undefined")
+  | ["speczr"; name; h] ->
+    (match M.oracle_zero_reserved (cstring name) (bytes_of_hex h) with
+     | Some b -> hex_of_bytes b | None -> "undefined")
   | ["enc"; fs] ->
     show_res hex_of_bytes (M.encode (fields_of_string fs))
   | ["cpack"; it] ->
